@@ -469,3 +469,149 @@ def assigned_on_every_path(events: List[Event], target: str) -> bool:
                 return True
         return False
     return covered(())
+
+
+# ----------------------------------------------------------------------------- where do the elements of a list come from
+class ElemSources:
+    """Flow-insensitive provenance of the *elements* of list-valued expressions inside one module.
+
+    sources(expr, fn) -> set of tags:  'LISTING' (os.listdir/scandir/iterdir of a directory), 'attr:<name>' (an
+    attribute read such as node.ordered_subpages), 'lit' (literals), 'param:<f>.<p>' (unresolved parameter), '?'.
+    Module-level helper functions are followed through their return expressions with parameters bound to the
+    arguments of the call; membership filters (`x in T` guarding an append / a comprehension) narrow the result to
+    the sources of T."""
+
+    LISTING_CALLS = ("os.listdir", "listdir", "os.scandir", "scandir")
+
+    def __init__(self, py, module: str):
+        self.py, self.module = py, module
+
+    def sources(self, e: ast.AST, fn: ast.AST, binds: Optional[Dict[str, Tuple[ast.AST, ast.AST, dict]]] = None,
+                depth: int = 0, seen: Optional[Set] = None) -> Set[str]:
+        binds = binds or {}
+        seen = seen if seen is not None else set()
+        if depth > 24:
+            return {"?"}
+        rec = lambda x, f=fn, b=binds: self.sources(x, f, b, depth + 1, seen)  # noqa: E731
+        if isinstance(e, ast.Constant):
+            return {"lit"}
+        if isinstance(e, (ast.List, ast.Tuple, ast.Set)):
+            out: Set[str] = set()
+            for x in e.elts:
+                out |= rec(x.value) if isinstance(x, ast.Starred) else ({"lit"} if isinstance(x, ast.Constant) else self.scalar(x, fn, binds, depth, seen))
+            return out
+        if isinstance(e, ast.BinOp) and isinstance(e.op, ast.Add):
+            return rec(e.left) | rec(e.right)
+        if isinstance(e, ast.IfExp):
+            return rec(e.body) | rec(e.orelse)
+        if isinstance(e, ast.BoolOp):
+            out = set()
+            for v in e.values:
+                out |= rec(v)
+            return out
+        if isinstance(e, ast.Attribute):
+            return {f"attr:{e.attr}"}
+        if isinstance(e, (ast.ListComp, ast.GeneratorExp, ast.SetComp)) and len(e.generators) == 1:
+            g = e.generators[0]
+            if isinstance(g.target, ast.Name) and isinstance(e.elt, ast.Name) and e.elt.id == g.target.id:
+                for c in g.ifs:
+                    t = self._membership(c, g.target.id)
+                    if t is not None:
+                        return rec(t)
+                return rec(g.iter)
+            return {"?"}
+        if isinstance(e, ast.Call):
+            cn = call_name(e)
+            last = cn.split(".")[-1]
+            if cn in self.LISTING_CALLS or last == "iterdir":
+                return {"LISTING"}
+            if last in ("sorted", "list", "tuple", "set", "reversed", "fromkeys", "unique", "copy") and e.args:
+                return rec(e.args[0])
+            if last == "copy" and isinstance(e.func, ast.Attribute):
+                return rec(e.func.value)
+            if isinstance(e.func, ast.Name) and f"{self.module}.{e.func.id}" in self.py.functions:
+                h = self.py.functions[f"{self.module}.{e.func.id}"]
+                key = (h.name, tuple(ast.unparse(a) for a in e.args))
+                if key in seen:
+                    return set()
+                seen.add(key)
+                b2 = {k: (v, fn, binds) for k, v in bind_args(e, h).items()}
+                out = set()
+                for r in returns(h):
+                    out |= self.sources(r, h, b2, depth + 1, seen)
+                return out or {"?"}
+            return {"?"}
+        if isinstance(e, ast.Name):
+            key = (id(fn), e.id, tuple(sorted(binds)))
+            if key in seen:
+                return set()
+            seen.add(key)
+            out = set()
+            params = [a.arg for a in fn.args.posonlyargs + fn.args.args + fn.args.kwonlyargs]
+            defs = 0
+            for n in ast.walk(fn):
+                if isinstance(n, (ast.Assign, ast.AnnAssign)) and getattr(n, "value", None) is not None:
+                    tg = n.targets if isinstance(n, ast.Assign) else [n.target]
+                    if any(e.id in target_names(t) for t in tg):
+                        out |= rec(n.value)
+                        defs += 1
+                elif isinstance(n, ast.AugAssign) and e.id in target_names(n.target):
+                    out |= rec(n.value)
+                    defs += 1
+                elif isinstance(n, ast.Call) and isinstance(n.func, ast.Attribute) and isinstance(n.func.value, ast.Name) \
+                        and n.func.value.id == e.id and n.func.attr in ("append", "extend", "insert", "add", "update") and n.args:
+                    arg = n.args[-1]
+                    if n.func.attr in ("extend", "update"):
+                        out |= rec(arg)
+                    else:
+                        out |= self.scalar(arg, fn, binds, depth + 1, seen, at=n)
+                    defs += 1
+            if e.id in params:
+                if e.id in binds:
+                    v, f2, b2 = binds[e.id]
+                    out |= self.sources(v, f2, b2, depth + 1, seen)
+                elif not defs:
+                    out |= {f"param:{fn.name}.{e.id}"}
+            elif not defs:
+                out |= {"?"}
+            return out
+        return {"?"}
+
+    @staticmethod
+    def _membership(test: ast.AST, var: str) -> Optional[ast.AST]:
+        """T if the test (a conjunct of it) is `var in T`"""
+        for n in ([test] + (list(test.values) if isinstance(test, ast.BoolOp) and isinstance(test.op, ast.And) else [])):
+            if isinstance(n, ast.Compare) and len(n.ops) == 1 and isinstance(n.ops[0], ast.In) and \
+                    isinstance(n.left, ast.Name) and n.left.id == var:
+                return n.comparators[0]
+        return None
+
+    def scalar(self, x: ast.AST, fn: ast.AST, binds, depth, seen, at: Optional[ast.AST] = None) -> Set[str]:
+        """sources of a single element value x (a loop variable stands for the elements of what it iterates); a
+        membership test `x in T` on the path to `at` narrows it to the sources of T"""
+        if isinstance(x, ast.Constant):
+            return {"lit"}
+        if isinstance(x, ast.Name):
+            par = parents_of(fn)
+            if at is not None:
+                for t, pol in conditions_of(at, par, stop=fn):
+                    m = self._membership(t, x.id) if pol else None
+                    if m is not None:
+                        return self.sources(m, fn, binds, depth + 1, seen)
+                # an earlier `if x not in T: continue`
+                blk = par.get(at)
+                while blk is not None and not isinstance(blk, (ast.For, ast.While, ast.FunctionDef)):
+                    blk = par.get(blk)
+                if isinstance(blk, (ast.For, ast.While)):
+                    for g in preceding_guards(blk.body, at):
+                        tt = g.test
+                        if isinstance(tt, ast.Compare) and len(tt.ops) == 1 and isinstance(tt.ops[0], ast.NotIn) and \
+                                isinstance(tt.left, ast.Name) and tt.left.id == x.id:
+                            return self.sources(tt.comparators[0], fn, binds, depth + 1, seen)
+            for n in ast.walk(fn):
+                if isinstance(n, (ast.For, ast.comprehension)) and isinstance(n.target, ast.Name) and n.target.id == x.id:
+                    return self.sources(n.iter, fn, binds, depth + 1, seen)
+            return {"?"}
+        if isinstance(x, ast.Attribute):
+            return {f"attr:{x.attr}"}
+        return {"?"}
